@@ -17,8 +17,10 @@ def numeric_value(rng):
         return str(rng.randrange(0, 15))
     if r < 0.85:
         return str(rng.randrange(15, 1200))
-    if r < 0.95:
+    if r < 0.90:
         return "%d.%d" % (rng.randrange(0, 12), rng.randrange(1, 10))
+    if r < 0.95:
+        return rng.choice(["%d.0", "0%d", "%d.00"]) % rng.randrange(0, 15)
     return "-%d" % rng.randrange(1, 20)
 
 
@@ -26,11 +28,10 @@ def values(rng, kind, n=None):
     n = n or rng.choice([1, 1, 1, 2, 3])
     if kind == "numeric":
         out = [numeric_value(rng) for _ in range(n)]
-        # numerically equal but differently written numbers have no defined order under numeric_sort
-        seen, keep = set(), []
+        # values do not repeat textually; numerically equal but differently written ones ('2', '2.0', '02') may occur
+        keep = []
         for v in out:
-            if float(v) not in seen:
-                seen.add(float(v))
+            if v not in keep:
                 keep.append(v)
         return keep
     if kind == "mixed":
